@@ -86,10 +86,10 @@ def export_histories(ctx, num, depth, seed):
     return uniq
 
 
-def run_harness(ctx, tag, args, timeout=3000):
+def run_harness(ctx, tag, args, timeout=3000, cwd=None):
     trace = ctx.path("traces", "%s.ndjson" % tag)
     out = ctx.path("traces", "%s.json" % tag)
-    ctx.run_vh(["lifecycle", "-trace", trace, "-out", out, "-seed", str(ctx.seed)] + args, timeout=timeout)
+    ctx.run_vh(["lifecycle", "-trace", trace, "-out", out, "-seed", str(ctx.seed)] + args, timeout=timeout, cwd=cwd)
     res = json.load(open(out))
     res["nonconf"] = res.get("nonconf") or []
     return res, trace
